@@ -168,6 +168,19 @@ def machine_lines(rec):
     return dict(lines=lines, expects=expects, labels=labels, nan=False)
 
 
+def values_are_doubles(rec):
+    """every value the objective returned is a number a double holds exactly (the key embedding of the machine and task replays
+    represents nothing else: integers beyond 2**53 or rationals that share a double would be ties there and are not in the code)"""
+    for e in rec['events']:
+        if e['t'] == 'eval' and 'raw' in e:
+            try:
+                if xnum(e['raw']) != xnum(fnum(e['raw'])):
+                    return False
+            except Exception:
+                return False
+    return True
+
+
 def task_check(rec, driver):
     """Replays the run on `Model/TaskRun.runTask` of the *translated* programs (the optimizer's run() skeleton, the space's
     check_limits loop, the sweep) under a scripted oracle: what every update / post step left behind (observed), observer
